@@ -59,7 +59,7 @@ class Query:
     flags: list = field(default_factory=list)       # extra cbmc flags
     solver: str = ""               # "", cadical, kissat, z3, cvc5, cvc5-int
     timeout: int = 120
-    mem_gb: int = 12
+    mem_gb: int = 6
     weight: int = 1                # how many of the 16 slots this query occupies
     remove_bodies: list = field(default_factory=list)
     object_bits: int = 0
@@ -332,6 +332,7 @@ def run_query(ctx, q, known):
         r.detail = "CBMC produced no result (rc=%s): %s %s" % (rc, " | ".join(errs)[-600:], err[-300:])
         return r
     unwind_fail = []
+    n_noverdict = 0
     for pr in results:
         desc = pr.get("description", "")
         kind = classify_desc(desc)
@@ -348,6 +349,9 @@ def run_query(ctx, q, known):
         if pr["status"] == "SUCCESS":
             r.n_ok += 1
             continue
+        if pr["status"] != "FAILURE":          # ERROR / UNKNOWN: the solver gave no verdict
+            n_noverdict += 1
+            continue
         f = dict(prop=pr.get("property"), desc=desc, func=fn, file=fl, line=sl.get("line"), kind=kind,
                  status=pr["status"], trace=pr.get("trace"))
         if kind == "unwind":
@@ -360,6 +364,13 @@ def run_query(ctx, q, known):
         r.detail = "unwinding assertion failed (bound %d too small for: %s)" % (
             q.unwind, ", ".join("%s %s" % (f["func"], f["desc"]) for f in unwind_fail[:4]))
         # real failures found below the bound are still reported
+    if n_noverdict:
+        errs = [m["messageText"] for m in msgs if m.get("messageType") == "ERROR"]
+        r.status = "inconclusive"
+        r.detail = "solver gave no verdict for %d properties (mem limit %dGB): %s" % (n_noverdict, q.mem_gb, " ".join(errs)[:200])
+        r.failures = [f for f in r.failures]
+        if not r.failures:
+            return r
     if not r.witness and not r.failures:
         r.status = "broken"
         r.detail = "vacuous: WITNESS assertion not reported violated (harness end unreachable)"
@@ -511,31 +522,44 @@ def replay(ctx, q, f, qdir):
 
 # --------------------------------------------------------------------------------------
 class Slots:
-    def __init__(self, n):
-        self.n = n
-        self.free = n
+    """cpu slots and a memory budget (GB) shared by the concurrent solver processes"""
+    def __init__(self, n, mem):
+        self.n, self.mem = n, mem
+        self.free, self.mfree = n, mem
         self.cv = threading.Condition()
 
-    def acquire(self, w):
-        w = min(w, self.n)
+    def acquire(self, w, m):
+        w, m = min(w, self.n), min(m, self.mem)
         with self.cv:
-            while self.free < w:
+            while self.free < w or self.mfree < m:
                 self.cv.wait()
             self.free -= w
-        return w
+            self.mfree -= m
+        return w, m
 
-    def release(self, w):
+    def release(self, wm):
         with self.cv:
-            self.free += w
+            self.free += wm[0]
+            self.mfree += wm[1]
             self.cv.notify_all()
 
 
+def mem_budget_gb():
+    try:
+        for ln in open("/proc/meminfo"):
+            if ln.startswith("MemAvailable:"):
+                return max(8, int(int(ln.split()[1]) / 1048576 * 0.8))
+    except Exception:
+        pass
+    return 32
+
+
 def run_all(ctx, queries, known):
-    slots = Slots(ctx.jobs)
+    slots = Slots(ctx.jobs, mem_budget_gb())
     results = []
 
     def job(q):
-        w = slots.acquire(q.weight)
+        w = slots.acquire(q.weight, q.mem_gb)
         try:
             return run_query(ctx, q, known)
         except Exception as e:  # never lose a query silently
@@ -592,13 +616,17 @@ def finish(ctx, info, results, known, fixed, extra_cov=None):
         if key in seen:
             continue
         seen.add(key)
+        if len(seen) > 12 or "replay" not in f:
+            continue          # counted, but only the first few (replayed) ones are printed
         log("VIOLATION property=%s replay=%s" % (pid, f.get("replay", "-")))
         log("    query=%s failing=[%s] %s (%s:%s line %s) replay=%s inputs=%s" % (
             r.q.name, f["prop"], f["desc"], f["file"], f["func"], f["line"], f.get("replay_result"),
             json.dumps(f.get("inputs", {}))[:400]))
         if f.get("replay_log"):
             log("    replay-log: " + f["replay_log"].replace("\n", "\n                ")[:900])
-    for r, f in mismatch:
+    if len(seen) > 12:
+        log("    ... %d distinct failing solver properties in total (see evidence file)" % len(seen))
+    for r, f in mismatch[:8]:
         log("ENCODING-MISMATCH property=%s query=%s [%s] %s: solver counterexample did not reproduce natively (%s) -- "
             "harness/stub problem, not reported as a violation" % (pid, r.q.name, f["prop"], f["desc"], f.get("replay_result")))
         if f.get("replay_log"):
